@@ -27,6 +27,9 @@ def run(ctx):
     ctx.rule('C08.a-one-definition', 'encoder, decoder and rate of one kind answer supports/validate from one predicate; provided methods are not overridden')
     ctx.rule('C08.b-validate-table', 'Rate::validate is Ok iff supports and shard_bytes non-zero and even (8-row truth table)')
     ctx.rule('C08.c-constructors-agree', 'new/reset fail exactly through validate of their own codec on their own arguments')
+    ctx.rule('C08.d-wrappers-forward', 'supports/new/reset of ReedSolomon{En,De}coder only forward to the default rate: the wrappers answer from the same predicate and their constructors agree with it (clause shared with C09.c)')
+    from . import c09
+    ctx.guard('C08.analysable', ctx.shared, {'C09.c-delegation': 'C08.d-wrappers-forward'}, c09.check, ctx, ctx.facts(cfgs[0]), cfgs[0])
     for cfg in cfgs:
         facts = ctx.facts(cfg)
         ctx.guard('C08.analysable', one_definition, ctx, facts, cfg)
@@ -122,6 +125,7 @@ def validate_table(ctx, facts, cfg):
     tails = core.fn_exits(fn)
     o, r, sb = ('local', 'original_count'), ('local', 'recovery_count'), ('local', 'shard_bytes')
     Z = core.norm_bin('Eq', sb, ('const', 0))
+    NZ = core.norm_bin('Ne', sb, ('const', 0))
     ODD = {core.norm_bin('Ne', core.norm_bin('BitAnd', sb, ('const', 1)), ('const', 0)),
            core.norm_bin('Ne', ('bin', 'Rem', sb, ('const', 2)), ('const', 0)),
            core.norm_bin('Eq', core.norm_bin('BitAnd', sb, ('const', 1)), ('const', 1)),
@@ -143,6 +147,8 @@ def validate_table(ctx, facts, cfg):
             return S
         if c == Z:
             return z
+        if c == NZ:
+            return not z
         if c in ODD:
             return odd
         if c in EVEN:
